@@ -169,6 +169,7 @@ func GenPlan(t *rapid.T, profile string, k Knobs) *Plan {
 		}
 		if k.WatchFail {
 			in.WatchFail = rapid.SampledFrom([]int{0, 0, 1, 2, 3}).Draw(t, "watch_fail")
+			in.WatchFailErr = rapid.SampledFrom([]string{"", "", "auth", "invalid", "bucket"}).Draw(t, "watch_fail_err")
 		}
 		p.Instances = append(p.Instances, in)
 	}
